@@ -102,7 +102,7 @@ def llvm_link(lls, out_ll):
     return out_ll
 
 
-def ir2c(ll, roots, out_c, models=(), stubs=()):
+def ir2c(ll, roots, out_c, models=(), stubs=(), noops=()):
     cmd = [sys.executable, os.path.join(VERIF, 'engine', 'ir2c.py'), ll, '-o', out_c]
     for r in roots:
         cmd += ['--root', r]
@@ -110,6 +110,8 @@ def ir2c(ll, roots, out_c, models=(), stubs=()):
         cmd += ['--models', m]
     for s in stubs:
         cmd += ['--stub', s]
+    for s in noops:
+        cmd += ['--noop', s]
     sh(cmd, timeout=900)
     return out_c
 
